@@ -47,6 +47,8 @@ type codec struct {
 	// rejected (limit+1) / accepted (at the limit).
 	reject func() []namedBytes
 	accept func() []namedBytes
+	// sig, if set, gives the layout of a seed; quick runs mutate one seed per layout.
+	sig func(seed []byte) string
 	// maxSeed overrides the length bound of seeds used for mutation.
 	maxSeed int
 }
